@@ -440,18 +440,35 @@ def applyDelete (c : Nat) (v1 v2 : Val) (rs : RowSet) : RowSet :=
     if sqlEqB (Row.at r c) v1 || sqlEqB (Row.at r c) v2 then some i else none
   { rs with dead := rs.dead ++ hit.filter (fun i => !rs.dead.contains i) }
 
+/-- a key-range DELETE marks exactly the visible rows whose key is in the range (what the statement
+means; that the DELETE's scan - columns + row handler + pushed KeyRange - finds exactly these rows
+is the range-scan property itself) -/
+def applyDeleteRange (c : Nat) (r : KeyRange) (rs : RowSet) : RowSet :=
+  let hit := rs.rows.zipIdx.filterMap fun (row, i) => if sqlInRange r (Row.at row c) then some i else none
+  { rs with dead := rs.dead ++ hit.filter (fun i => !rs.dead.contains i) }
+
+/-- the row-handler column of a scan (`StorageColumnRef::RowHandler`, what a DELETE's scan carries):
+one more column, at index `w`, whose value for stored row `i` of row-set `id` is
+`SecondaryRowHandler(id, i).as_i64()`, from the seek position up to the row-set's TOTAL row count -/
+def withHandler (w : Nat) (rs : RowSet) : RowSet :=
+  { rs with rows := rs.rows.zipIdx.map fun (row, i) =>
+      ((List.range w).map fun c => Row.at row c) ++ [Val.i64 ((rs.id : Int) * 4294967296 + (i : Int))] }
+
 inductive StoreOp where
   /-- one INSERT statement = one memtable = one row-set -/
   | ins (rows : List Row)
   | del (c : Nat) (v1 v2 : Val)
   /-- one pass of the compactor -/
   | compact
+  /-- `DELETE FROM t WHERE <key range on column c>` -/
+  | delRange (c : Nat) (r : KeyRange)
 
 /-- one write on the stored layout (live row-sets in id order, next row-set id) -/
 def applyStoreOp (pk : List Nat) : List RowSet × Nat → StoreOp → List RowSet × Nat
   | (l, n), .ins rows => (l ++ [{ id := n, rows := memtableFlush pk rows, dead := [], blocks := [] }], n + 1)
   | (l, n), .del c v1 v2 => (l.map (applyDelete c v1 v2), n)
   | (l, n), .compact => compactAll pk n l
+  | (l, n), .delRange c r => (l.map (applyDeleteRange c r), n)
 
 def replayStore (pk : List Nat) (ops : List StoreOp) : List RowSet × Nat := ops.foldl (applyStoreOp pk) ([], 0)
 
